@@ -288,3 +288,7 @@ func VerifNextField(hp *HPACK, hf *HeaderField, blockStart bool, fieldsProcessed
 // VerifSetSensible marks a header field as sensitive (the public API has no
 // setter; a user gets one by decoding a never-indexed literal).
 func VerifSetSensible(hf *HeaderField, v bool) { hf.sensible = v }
+
+// VerifRetryable exposes the decision RoundTrip takes on an error: whether the
+// request is sent again on another connection (or reported retryable).
+func VerifRetryable(err error) bool { return retryable(err) }
